@@ -514,7 +514,8 @@ func (r *ResyncManagerDCP) invalidatePrincipals(ctx context.Context, db *Databas
 		if err != nil {
 			return fmt.Errorf("Error updating principal sequences: %w", err)
 		}
-		return nil
+		// Regenerating the principals' sequences does not recompute their access: the grants of the resynced documents
+		// still have to reach them through the invalidation below.
 	}
 
 	if r.DocsChanged() > 0 {
